@@ -15,7 +15,7 @@ trap 'cd $W && git checkout -- . && git clean -fdq' EXIT
 if ! go build ./... 2>/tmp/mutbuild.err; then echo "MUTANT DOES NOT BUILD"; head /tmp/mutbuild.err; exit 3; fi
 T=$(go test -vet=off -count=1 ./... 2>&1 | grep -v "no test files" | grep -v "^ok" | head -5)
 if [ -n "$T" ]; then echo "REPO TESTS FAIL WITH MUTANT:"; echo "$T"; else echo "repo tests pass with mutant"; fi
-cd /verif
+cd ${VERIF_DIR:-/verif}
 for c in "$@"; do
   out=$(VERIF_REPO=$W timeout 1500 ./vcheck $c 2>&1); rc=$?
   echo "== $c rc=$rc $(echo "$out" | grep -c '^VIOLATION') violation(s)"
